@@ -288,6 +288,34 @@ LoadBuild(rows, g2) ==
     /\ gen' = g2 /\ used' = {} /\ pk' = ""
     /\ res' = "none"
 
+(* Populating an existing metamodel from a loader that holds rows only            *)
+(* (ModelLoader.populate): the rows become instances after the existing ones and  *)
+(* the join runs over everything the metamodel then holds - an existing instance  *)
+(* takes part with the values it reads (referential values through its links), so  *)
+(* existing links stay, and new links are added after them in pool order.          *)
+LoadInto(rows, g2) ==
+    LET R(c) == RowsOf(c, rows)
+        pool2(c) == pool[c] \o [k \in 1..Len(R(c)) |-> born[c] + k]
+        RowAt(c, i) == IF i <= born[c] THEN RowOfInst(c, i) ELSE R(c)[i - born[c]]
+    IN /\ \A c \in ClassSet : born[c] + Len(R(c)) <= MaxI
+       /\ pool' = [c \in ClassSet |-> pool2(c)]
+       /\ born' = [c \in ClassSet |-> born[c] + Len(R(c))]
+       /\ val' = [c \in ClassSet |-> [i \in Ord |->
+                     IF i > born[c] /\ i <= born[c] + Len(R(c))
+                     THEN [n \in Rng(NonRef(c)) |-> R(c)[i - born[c]].v[n]] ELSE val[c][i]]]
+       /\ fwd' = [a \in AIdx |-> [t \in Ord |->
+                     IF InSeq(t, pool2(Tgt(a)))
+                     THEN fwd[a][t] \o SelectSeq(pool2(Src(a)), LAMBDA s :
+                              ~InSeq(s, fwd[a][t]) /\ Matches(a, RowAt(Src(a), s), RowAt(Tgt(a), t)))
+                     ELSE fwd[a][t]]]
+       /\ bwd' = [a \in AIdx |-> [s \in Ord |->
+                     IF InSeq(s, pool2(Src(a)))
+                     THEN bwd[a][s] \o SelectSeq(pool2(Tgt(a)), LAMBDA t :
+                              ~InSeq(t, bwd[a][s]) /\ Matches(a, RowAt(Src(a), s), RowAt(Tgt(a), t)))
+                     ELSE bwd[a][s]]]
+       /\ gen' = g2 /\ UNCHANGED <<used, pk>>          \* (creating the rows draws default ids, as a build does)
+       /\ res' = "none"
+
 (* Creating a row through the API with referential values (MetaClass.new with     *)
 (* referential arguments, MetaModel.clone): the instance gets its non-referential *)
 (* values and is related to every existing referred instance whose identifying   *)
@@ -436,6 +464,10 @@ VDelete(x) == "delete" \in Alpha /\ HDelete(x)
 Populations == UNION {[1..n -> RowChoices] : n \in 0..MaxRows}
 VLoad(rows) == "load" \in Alpha /\ (\A c \in ClassSet : born[c] = 0) /\ gen = 0 /\ LoadBuild(rows, 0)
 VSaveLoad == "save" \in Alpha /\ SaveLoad(gen)
+\* further rows reach a metamodel that exists already (another loader populates it); together at most MaxRows rows
+RECURSIVE SumBorn(_)
+SumBorn(k) == IF k = 0 THEN 0 ELSE born[Classes[k]] + SumBorn(k - 1)
+VLoadInto(rows) == "loadinto" \in Alpha /\ rows # <<>> /\ SumBorn(Len(Classes)) + Len(rows) <= MaxRows /\ LoadInto(rows, gen)
 
 NextVal ==
     \/ \E c \in ClassSet : \E pos \in PosSetC(c) : \E kw \in KwSetC(c) : VNew(c, pos, kw)
@@ -444,7 +476,7 @@ NextVal ==
     \/ VGenNext \/ VGenPeek
     \/ \E x \in AllInsts, y \in AllInsts, r \in RelIds, p \in PhraseSet : VRelate(x, y, r, p) \/ VUnrelate(x, y, r, p)
     \/ \E x \in AllInsts : VDelete(x)
-    \/ \E rows \in Populations : VLoad(rows)
+    \/ \E rows \in Populations : VLoad(rows) \/ VLoadInto(rows)
     \/ VSaveLoad
 
 SpecVal == Init /\ [][NextVal]_vars
@@ -461,6 +493,11 @@ LoadIsJoin ==
              \A s \in 1..born'[Src(a)], t \in 1..born'[Tgt(a)] :
                     (InSeq(s, fwd'[a][t]) <=> <<RowIndex(Src(a), s, rows), RowIndex(Tgt(a), t, rows)>> \in JoinPairs(a, rows))
                  /\ (InSeq(t, bwd'[a][s]) <=> <<RowIndex(Src(a), s, rows), RowIndex(Tgt(a), t, rows)>> \in JoinPairs(a, rows))]_vars
+\* ... and however the rows are split between a build and later populate calls: in every state reached by loading
+\* only, two live instances are linked exactly when the values they read match
+JoinClosed ==
+    \A a \in AIdx : \A s \in Live(Src(a)), t \in Live(Tgt(a)) :
+        Related(a, t, s) <=> Matches(a, RowOfInst(Src(a), s), RowOfInst(Tgt(a), t))
 \* the join does not depend on the order of the statements
 Perms(n) == {f \in [1..n -> 1..n] : \A i, j \in 1..n : f[i] = f[j] => i = j}
 PermutationInvariant ==
